@@ -91,7 +91,7 @@ BASE = {  # parameter-set id -> (class, kwargs); small so that a run takes milli
     "EFDD_b": ("EFDD", dict(nxseg=200, pov=0.25)),
     "FSDD": ("FSDD", dict(nxseg=256)),
     "FSDD_b": ("FSDD", dict(nxseg=200, pov=0.25)),
-    "SSIcov": ("SSIcov", dict(br=4, ordmax=8, method="cov_mm")),
+    "SSIcov": ("SSIcov", dict(br=4, ordmax=8)),  # class default method ("cov_mm"), same br as "SSIdat": only the class tells the two runs apart
     "SSIcov_b": ("SSIcov", dict(br=5, ordmax=8, method="cov_R")),
     "SSIdat": ("SSIdat", dict(br=4, ordmax=8)),
     "SSIdat_b": ("SSIdat", dict(br=3, ordmax=6)),
